@@ -1133,6 +1133,10 @@ func (p *printVisitor) EnterSchemaDefinition(ref int) {
 }
 
 func (p *printVisitor) LeaveSchemaDefinition(ref int) {
+	if len(p.document.SchemaDefinitions[ref].RootOperationTypeDefinitions.Refs) == 0 {
+		// empty root operation list: no RootOperationTypeDefinition has written the opening brace
+		p.write(literal.LBRACE)
+	}
 	if p.indent != nil {
 		p.write(literal.LINETERMINATOR)
 	}
@@ -1155,6 +1159,11 @@ func (p *printVisitor) EnterSchemaExtension(ref int) {
 }
 
 func (p *printVisitor) LeaveSchemaExtension(ref int) {
+	if len(p.document.SchemaExtensions[ref].SchemaDefinition.RootOperationTypeDefinitions.Refs) == 0 && !p.document.SchemaExtensions[ref].SchemaDefinition.HasDirectives {
+		// `extend schema` without directives needs a root operation list, even an empty one
+		p.write(literal.LBRACE)
+		p.write(literal.RBRACE)
+	}
 	if p.indent != nil {
 		p.write(literal.LINETERMINATOR)
 	}
